@@ -33,6 +33,17 @@ Theorem c02_every_period_closed : forall c es ma os s,
   all_periods_closed (m_name ma) (tbl_of ma) os.
 Proof. exact audition_periods_closed. Qed.
 
+(** Also when an evaluation error aborted the audit loop (after its initial
+    round): the deferred final round closes every period, unless that final
+    round itself hits an evaluation error. *)
+Theorem c02_periods_closed_even_when_aborted : forall c es ma os s stt,
+  NoDup (map m_name (c_members c)) -> In ma (c_members c) ->
+  ends_final es = true ->
+  (exists s1 o0, mood_change c (init_st c) false 0 "clear" = (s1, o0, Running)) ->
+  run_audition c es = (os, s, stt) -> stt <> Panicked ->
+  all_periods_closed (m_name ma) (tbl_of ma) os \/ final_round_aborted c.
+Proof. exact audition_periods_closed_even_when_aborted. Qed.
+
 (** A period is a maximal stretch over which the sampled condition holds:
     whenever the condition's dependencies are fresh, the auditor audits after
     the round iff the condition evaluated to true ... *)
